@@ -31,7 +31,7 @@ func (c09) Meta() fw.Meta {
 			"the oracle uses the clock the command printed; the symmetry relation is only judged when both runs printed the same clock",
 			"a glob pattern that matches nothing on the source side is not a 'missing file' and is not judged here (C16 covers it)",
 		},
-		Obligations: []string{"diff_runs", "clean_verdicts", "diff_verdicts", "records_checked", "self_diff", "identical_files", "ulp_apart", "signed_zero_equal", "nan_vs_nan_equal", "nan_vs_value", "missing_src", "missing_dest", "layout_mismatch_error", "symmetry_checked", "glob_one_differs", "glob_none_differs", "single_archive_selection"},
+		Obligations: []string{"diff_runs", "clean_verdicts", "diff_verdicts", "records_checked", "self_diff", "identical_files", "ulp_apart", "signed_zero_equal", "nan_vs_nan_equal", "nan_vs_value", "missing_src", "missing_dest", "layout_mismatch_error", "symmetry_checked", "glob_one_differs", "glob_none_differs", "single_archive_selection", "remote_side_runs"},
 		Workers:     12,
 	}
 }
@@ -250,7 +250,30 @@ func (c09) Run(c *fw.Ctx) {
 		destBase = aBase
 		c.Count("self_diff", 1)
 	}
-	res := runCLI(c, mkArgs(aBase, destBase, pat)...)
+	// a third of the single-file scenarios address one side through a real server (the files are
+	// the same ones; the oracle still reads them locally)
+	srcBaseArg, destBaseArg := aBase, destBase
+	extra := []string(nil)
+	patArg := pat
+	if !sc.Glob && c.Index%3 == 2 && sc.Kind != "self" {
+		if u, served, ok := workerServer(c); ok {
+			link := filepath.Join(served, fmt.Sprintf("c09-%d", c.Index))
+			if r.Intn(2) == 0 {
+				os.Symlink(aBase, link)
+				srcBaseArg, patArg = u, filepath.Join(filepath.Base(link), pat)
+				extra = []string{"-dest", pat}
+				sc.Kind += "+remote-src"
+			} else {
+				os.Symlink(destBase, link)
+				destBaseArg = u
+				extra = []string{"-dest", filepath.Join(filepath.Base(link), pat)}
+				sc.Kind += "+remote-dest"
+			}
+			defer os.Remove(link)
+			c.Count("remote_side_runs", 1)
+		}
+	}
+	res := runCLI(c, append(mkArgs(srcBaseArg, destBaseArg, patArg), extra...)...)
 	det := func() fw.J { return fw.J{"scenario": sc, "run": res.brief(), "fixture_clock": now} }
 	c.Count("diff_runs", 1)
 	if cliPanicked(res) {
@@ -258,7 +281,8 @@ func (c09) Run(c *fw.Ctx) {
 		return
 	}
 	out := parseOutput(res.Stdout)
-	switch sc.Kind {
+	baseKind := strings.Split(sc.Kind, "+")[0]
+	switch baseKind {
 	case "layout-mismatch":
 		if res.Exit != 2 {
 			c.Violationf("layout-mismatch-verdict", det(), "diff of files with different layouts exited %d, want an error (2)", res.Exit)
@@ -272,11 +296,11 @@ func (c09) Run(c *fw.Ctx) {
 			break // handled per file below (only missing-dest can be glob)
 		}
 		if res.Exit != 1 || len(out.Errs) != 1 || !strings.Contains(out.Errs[0], "srcOrDest:") {
-			c.Violationf("missing-side-verdict", det(), "diff with a missing %s exited %d with %d err: lines; want exit 1 and one err: line", sc.Kind, res.Exit, len(out.Errs))
+			c.Violationf("missing-side-verdict", det(), "diff with a %s exited %d with %d err: lines; want exit 1 and one err: line", sc.Kind, res.Exit, len(out.Errs))
 			return
 		}
 		wantSide := "srcOrDest:source"
-		if sc.Kind == "missing-dest" {
+		if baseKind == "missing-dest" {
 			wantSide = "srcOrDest:destination"
 			c.Count("missing_dest", 1)
 		} else {
@@ -297,7 +321,7 @@ func (c09) Run(c *fw.Ctx) {
 	missing := 0
 	for fi, rel := range sc.Files {
 		nl := out.Nows[fi]
-		if nl.Name != rel {
+		if nl.Name != rel && filepath.Base(nl.Name) != rel {
 			c.Violationf("diff-now-lines", det(), "now: line %d names %q, want %q", fi, nl.Name, rel)
 			return
 		}
@@ -363,7 +387,7 @@ func (c09) Run(c *fw.Ctx) {
 	} else {
 		c.Count("clean_verdicts", 1)
 	}
-	if sc.Kind == "identical-bytes" {
+	if baseKind == "identical-bytes" {
 		c.Count("identical_files", 1)
 	}
 	if sc.Glob {
@@ -378,7 +402,7 @@ func (c09) Run(c *fw.Ctx) {
 		}
 	}
 	// ---- symmetry: diff(b,a) in the same second gives the same verdict and mirrored records
-	if !sc.Glob && sc.Kind != "self" {
+	if !sc.Glob && sc.Kind != "self" && extra == nil {
 		res2 := runCLI(c, mkArgs(destBase, aBase, pat)...)
 		out2 := parseOutput(res2.Stdout)
 		if len(out2.Nows) == 1 && len(out.Nows) == 1 && out2.Nows[0].Now == out.Nows[0].Now {
